@@ -502,12 +502,15 @@ fn c17_adsr_public_ops_no_panic() {
 }
 
 // @harness prop=C17,C02 tier=quick timeout=1500
-// @about progress for every configuration, through the envelope's OWN counter: Adsr::new(fs) for any f32 sample rate in [100, 192000], any attack time in [0.001, 20] s (both symbolic f32), gate_on(), one tick(): the increment tick() installed in the envelope's counter is >= 1 and <= 10*2^24+64 and the counter is 24 bits wide, so by c17_tick_progress every tick of a timed phase either ends it or strictly advances the counter: every attack/decay/release ends after at most 2^24 ticks and tick() cannot overflow
+// @about progress for every configuration, through the envelope's OWN counter: Adsr::new(fs) for any f32 sample rate in [100, 192000], any finite f32 attack time passed through the real clamp (both symbolic f32), gate_on(), one tick(): the increment tick() installed in the envelope's counter is >= 1 and <= 10*2^24+64 and the counter is 24 bits wide, so by c17_tick_progress every tick of a timed phase either ends it or strictly advances the counter: every attack/decay/release ends after at most 2^24 ticks and tick() cannot overflow
 #[kani::proof]
 fn c17_increment_positive_and_bounded() {
     let fs: f32 = kani::any();
     kani::assume(fs >= 100.0 && fs <= 192_000.0);
-    let t = any_time();
+    // any finite requested time, clamped by the real conversion
+    let x: f32 = kani::any();
+    kani::assume(x.is_finite());
+    let t: TimePeriod = x.into();
     let mut a = Adsr::new(fs);
     a.set_input(Input::Attack(t));
     a.gate_on();
@@ -515,6 +518,6 @@ fn c17_increment_positive_and_bounded() {
     vassert!(a.phase_accumulator.verif_inc() >= 1, "C17/increment/at-least-one-step-so-every-phase-ends");
     vassert!(a.phase_accumulator.verif_inc() <= 10 * (1 << 24) + 64, "C17/increment/within-the-bound-tick-is-proved-for");
     vassert!(a.phase_accumulator.verif_mask() == ACC_MAX, "C17/counter/24-bits-wide");
-    vcover!(t.0 == 20.0 && fs == 192_000.0, "witness: slowest phase");
-    vcover!(t.0 == 0.001 && fs == 100.0, "witness: fastest phase");
+    vcover!(x > 1.0e6 && fs == 192_000.0, "witness: slowest phase (huge time, clamped)");
+    vcover!(x < 0.0 && fs == 100.0, "witness: fastest phase (negative time, clamped)");
 }
